@@ -93,23 +93,23 @@ type decision struct {
 
 // World executes a scenario on the real state machines and evaluates the property oracle.
 type World struct {
-	sc        *Scenario
-	sms       []SM
-	views     []*view
-	isByz     map[int]bool
-	nodeOf    map[int]int // validator index -> machine index
-	Outs      []string    // canonical action list per event
-	Acts      [][]Act
-	Lines     []string // driver lines: new..., then one per event
-	decisions map[uint64]decision
-	Viols     []Viol
-	violSeen  map[string]bool
+	sc         *Scenario
+	sms        []SM
+	views      []*view
+	isByz      map[int]bool
+	nodeOf     map[int]int // validator index -> machine index
+	Outs       []string    // canonical action list per event
+	Acts       [][]Act
+	Lines      []string // driver lines: new..., then one per event
+	decisions  map[uint64]decision
+	Viols      []Viol
+	violSeen   map[string]bool
 	Admissible bool
-	Why       string
-	hits      map[string]int
-	Pending   *In // input being processed by the real code right now (hang detection)
-	PendingM  int
-	enteredAt int64
+	Why        string
+	hits       map[string]int
+	Pending    *In // input being processed by the real code right now (hang detection)
+	PendingM   int
+	enteredAt  int64
 }
 
 func NewWorld(sc *Scenario) *World {
